@@ -200,6 +200,44 @@ fn fds_main(env: &mut VEnv, _args: Vec<Field>) -> BuiltinFuture<'_> {
     })
 }
 
+/// `put FD B`: writes the one byte B through descriptor FD; `get FD N`: reads up to N bytes through FD.  Both
+/// record the table they see first, then what happened (`p1`/`p0`, `g<hex>`/`ge`/`gT`); exit status 0 / 1.
+fn io_main(env: &mut VEnv, args: Vec<Field>, put: bool) -> BuiltinFuture<'_> {
+    let (s, e) = snap_now(env);
+    Box::pin(async move {
+        let fd = Fd(args.first().and_then(|f| f.value.parse().ok()).unwrap_or(-1));
+        let arg: usize = args.get(1).and_then(|f| f.value.parse().ok()).unwrap_or(0);
+        let (text, ok) = if put {
+            let ok = env.system.write_all(fd, &[arg as u8]).await.is_ok();
+            (format!("p{}", ok as u8), ok)
+        } else {
+            let t0 = STATE.with(|s| {
+                let s = s.borrow();
+                let st = s.as_ref().unwrap().borrow();
+                st.processes[&env.main_pid].get_fd(fd).map(|b| {
+                    let ofd = b.open_file_description.borrow();
+                    let inode = Rc::clone(ofd.inode());
+                    let name = file_name(&st, &inode);
+                    tainted(name, &inode)
+                })
+            });
+            let mut buf = vec![0u8; arg];
+            match env.system.read(fd, &mut buf).await {
+                Err(_) => ("ge".to_string(), false),
+                Ok(n) => (if t0 == Some(true) { "gT".to_string() } else { format!("g{}", hex(&buf[..n])) }, true),
+            }
+        };
+        LOG.with(|l| l.borrow_mut().push(("fds".into(), format!("{s}|{text}"), e)));
+        ExitStatus(if ok { 0 } else { 1 }).into()
+    })
+}
+fn put_main(env: &mut VEnv, args: Vec<Field>) -> BuiltinFuture<'_> {
+    io_main(env, args, true)
+}
+fn get_main(env: &mut VEnv, args: Vec<Field>) -> BuiltinFuture<'_> {
+    io_main(env, args, false)
+}
+
 fn errno_name(e: yash_env::system::Errno) -> String {
     use yash_env::system::Errno;
     for (v, n) in [
@@ -297,6 +335,8 @@ fn c09_builtins() -> Vec<(&'static str, Builtin<VSys>)> {
         ("rg", Builtin::new(Type::Mandatory, rg_main)),
         ("mark", Builtin::new(Type::Mandatory, mark_main)),
         ("imark", Builtin::new(Type::Mandatory, imark_main)),
+        ("put", Builtin::new(Type::Mandatory, put_main)),
+        ("get", Builtin::new(Type::Mandatory, get_main)),
         ("fds", Builtin::new(Type::Mandatory, fds_main)),
         ("sfds", Builtin::new(Type::Special, fds_main)),
         // the same probe under every other built-in type `execute_builtin` distinguishes
@@ -478,7 +518,7 @@ fn parse_case(case: &str) -> Option<Case> {
             if markers != 1 {
                 return None;
             }
-        } else if !KINDS.contains(&pair[0]) || markers != 0 {
+        } else if !(KINDS.contains(&pair[0]) || io_kind(pair[0]).is_some()) || markers != 0 {
             return None;
         }
         commands.push((pair[0].to_string(), redirs));
@@ -573,11 +613,24 @@ fn nested_text(kind: &str, redirs: &[RedirSpec], salt: u64) -> String {
     }
 }
 
+/// `put<fd>.<byte>` / `get<fd>.<count>`
+fn io_kind(kind: &str) -> Option<(bool, i32, usize)> {
+    let put = kind.starts_with("put");
+    if !put && !kind.starts_with("get") {
+        return None;
+    }
+    let (a, b) = kind[3..].split_once('.')?;
+    Some((put, a.parse().ok()?, b.parse().ok()?))
+}
+
 fn command_text(kind: &str, redirs: &[RedirSpec], salt: u64) -> String {
     if NEST_KINDS.contains(&kind) {
         return nested_text(kind, redirs, salt);
     }
     let (words, bodies) = redir_words(redirs, salt);
+    if let Some((put, fd, arg)) = io_kind(kind) {
+        return format!("{} {fd} {arg} {}\n{}mark\n", if put { "put" } else { "get" }, words.join(" "), bodies);
+    }
     if kind == "guard" || kind == "guardkeep" {
         // the list goes to the built-in's own guard, not to the command
         let idx = GUARD_LISTS.with(|g| {
@@ -1375,6 +1428,69 @@ fn slash_cases() -> Vec<String> {
     v
 }
 
+/// file CONTENTS and offsets through arbitrary descriptors (`put` / `get`): sharing of one open file description
+/// after `n>&m` vs two descriptions after two opens, `>>` at every write, `<>` reading and writing through one
+/// offset without truncating, `>|` / noclobber, an earlier `>` not undone by a later failing item, here-document
+/// contents read once from the start
+fn content_cases() -> Vec<String> {
+    let mut v: Vec<String> = [
+        // shared offset: concatenated; two opens: overwritten
+        "0 - - | exec | 3 out m; 4 dupout 3 | put3.1 | | put4.2 | | put3.3 | | regular | ",
+        "0 - - | exec | 3 out m; 4 out m | put3.1 | | put3.2 | | put4.3 | | regular | ",
+        "0 - - | exec | 3 out a; 4 dupout 3; 5 rw a | put4.1 | | put3.2 | | get5.4 | | get5.1 | ",
+        // `>>` appends at every write, also after another descriptor extended the file
+        "0 - - | exec | 3 app a; 4 app a; 5 out b | put3.1 | | put4.2 | | put3.3 | | put5.4 | | put5.5 | ",
+        "0 - - | exec | 3 app a; 4 rw a | put4.7 | | put3.1 | | put4.6 | | put3.2 | | get4.9 | ",
+        // `<>`: neither truncates nor creates exclusively; one offset for reading and writing
+        "0 - - | exec | 3 rw a | get3.1 | | put3.5 | | get3.1 | | put3.6 | ",
+        "0 - - | exec | 3 rw m | get3.1 | | put3.5 | | get3.1 | ",
+        "1 - - | exec | 3 rw a; 4 rw a | put3.5 | | get4.2 | ",
+        // `>|` and noclobber
+        "1 - - | put1.5 | 1 out a | get0.2 | 0 in a | regular | ",
+        "1 - - | put1.5 | 1 clob a | get0.2 | 0 in a | ",
+        "1 - - | put1.5 | 1 out m | get0.2 | 0 in m | ",
+        "1 - - | put1.5 | 1 out t | get0.2 | 0 in t | ",
+        "0 - - | put1.5 | 1 out a | get0.2 | 0 in a | ",
+        // an earlier `>` is not undone by a later failing item of the same command
+        "0 - - | put1.5 | 1 out a; 0 in m | get0.2 | 0 in a | ",
+        "0 - - | put3.5 | 3 out b; 1 dupout 7 | get0.2 | 0 in b | ",
+        "0 11 - | regular | 12 out a | get0.2 | 0 in a | ",
+        "0 11 - | put1.5 | 1 out b; 12 out a | get0.2 | 0 in a | get0.2 | 0 in b | ",
+        // here-document: readable once from the start
+        "0 - - | exec | 3 here - | get3.2 | | get3.2 | | get3.2 | ",
+        "0 - - | get0.3 | 0 here - | get0.3 | 0 here - | ",
+        "0 - - | exec | 3 here -; 4 dupin 3 | get3.1 | | get4.1 | | get3.5 | ",
+        // errors of the built-ins themselves: closed / wrong access
+        "0 - - | put7.1 | | get7.1 | | put0.1 | 0 in a | get1.1 | 1 out m | ",
+    ]
+    .iter()
+    .map(|s| s.to_string())
+    .collect();
+    // every operator pair on one file through two descriptors, two writes each and a read-back
+    for a in FILE_OPS {
+        for b in FILE_OPS {
+            for nc in [0, 1] {
+                for f in ["a", "m"] {
+                    v.push(format!(
+                        "{nc} - - | exec | 3 {a} {f}; 4 {b} {f} | put3.1 | | put4.2 | | put3.3 | | get4.2 | | get0.4 | 0 in {f} | "
+                    ));
+                }
+            }
+        }
+    }
+    for lim in 5..=8 {
+        v.push(format!("0 {lim} - | exec | 3 out m; 4 dupout 3; 5 app m | put3.1 | 1 out b | put5.2 | | put4.3 | | get0.4 | 0 in m | "));
+    }
+    // a case is header | kind | list | kind | list …: drop the separator after a last, non-empty list
+    for c in v.iter_mut() {
+        if c.split('|').count() % 2 == 0 {
+            *c = c.trim_end().trim_end_matches('|').trim_end().to_string();
+        }
+        assert!(parse_case(c).is_some(), "malformed fixed case: {c}");
+    }
+    v
+}
+
 fn main() {
     quiet_panics();
     let o = Opts::from_args();
@@ -1398,6 +1514,7 @@ fn main() {
     all.extend(nested_cases(o.thorough()));
     all.extend(cs_status_cases());
     all.extend(slash_cases());
+    all.extend(content_cases());
     for c in &all {
         if index % o.shard.1 == o.shard.0 {
             let (obs, oracle) = run_guarded(c);
